@@ -307,6 +307,13 @@ def gen_lw(rng, tier, cs):
         x0 = _vec(rng, n)
         N = _niter(rng, tier, k)
         A = _mop(M, n)
+        sq = rng.random() < 0.3
+        if sq:        # nonlinear operator: the derivative must be taken at the current iterate
+            import odl
+            A = A * odl.PowerOperator(A.domain, 2)
+            omega = omega / 8
+            x0 = [rng.choice([-1.0, -0.5, 0.5, 1.0]) for _ in range(n)]
+            N = min(N, 5)
         t1, c1 = _rec()
         x = A.domain.element(x0)
         landweber(A, x, A.range.element(rhs), N, omega=omega, projection=pf, callback=c1)
@@ -316,11 +323,14 @@ def gen_lw(rng, tier, cs):
             landweber(A, x, A.range.element(rhs), n1, omega=omega, projection=pf)
             landweber(A, x, A.range.element(rhs), N - n1, omega=omega, projection=pf)
             sp.append(np.asarray(x).tolist())
-        cs.add('{| kl_nc := %d; kl_M := %s; kl_rhs := %s; kl_omega := %s; kl_proj := %s; kl_x := %s; kl_n := %d; '
+        if not np.all(np.isfinite(np.array(t1 + sp, dtype=float))) or (t1 and np.max(np.abs(np.array(t1))) > 1e6):
+            continue
+        cs.add('{| kl_nc := %d; kl_M := %s; kl_sq := %s; kl_rhs := %s; kl_omega := %s; kl_proj := %s; kl_x := %s; kl_n := %d; '
                'kl_tr := %s; kl_split := %s |}'
-               % (n, C.qss(M), C.qs(rhs), C.q(omega), pc, C.qs(x0), N, C.qss(t1), C.qss(sp)),
-               {'solver': 'landweber', 'M': M, 'rhs': rhs, 'omega': omega, 'projection': pd, 'x0': x0, 'niter': N},
-               ('lw', n, m, omega, pd, N, tuple(x0)) if N > 0 else None)
+               % (n, C.qss(M), C.b(sq), C.qs(rhs), C.q(omega), pc, C.qs(x0), N, C.qss(t1), C.qss(sp)),
+               {'solver': 'landweber', 'M': M, 'squared': sq, 'rhs': rhs, 'omega': omega, 'projection': pd, 'x0': x0,
+                'niter': N},
+               ('lw', n, m, sq, omega, pd, N, tuple(x0)) if N > 0 else None)
 
 
 def gen_kz(rng, tier, cs):
